@@ -82,9 +82,18 @@ package proc
 //@   modifies closed(l.drain), heap("#closed"), heap("#once")
 //@   ensures @established-connections-stay-registered l.conns == old(l.conns)
 
+//@ func (*listener).Stop$1
+//@   prop C09
+//@   requires deref(l) != nil && deref(l).quit != nil && !closed(deref(l).quit)
+//@   modifies closed(deref(l).quit)
+//@   ensures @quit-latch-closed closed(deref(l).quit)
+
 //@ func (*listener).Stop
 //@   prop C09
+//@   flag model-once
 //@   requires l != nil
+//@   assume l.quit != nil && oncedone(l.quitOnce) == closed(l.quit)
+//@   callpre Lock @the-quit-latch-is-closed-before-anything-is-torn-down closed(l.quit)
 //@   requires @registered-connections-present forall c net.Conn :: has(l.conns, c) ==> c != nil
 //@   loop 0 invariant forall c net.Conn :: has(conns, c) ==> c != nil
 //@   modifies all
